@@ -32,7 +32,14 @@ PROPS = {
             dict(key='pygyro/poisson/poisson_tools.py::get_perturbed_rho', gen='rho', n=(100, 2000)),
             dict(key='pygyro/poisson/poisson_tools.py::get_rho', gen='rho_plain', n=(100, 2000)),
         ],
-        assumptions=['complex128 density storage is treated like real storage (the kernels only add and multiply)'],
+        bounded=[dict(module='vf.rt.bounded_poisson', prop='C16',
+                      bound='real DensityFinder (getRho / getPerturbedRho) on process grids 1x1..3x2 with uneven r and z blocks, real and '
+                            'complex density storage, reuse of the density grid after an in-place FFT, v splines of degree 1-5 and '
+                            'uniform cubic with 9-17 points, against exact integration of the interpolating spline and f_eq at the global '
+                            'radius (tolerance 2e-13 relative)')],
+        assumptions=['complex128 density storage is treated like real storage in the kernel proofs (the kernels only add and multiply); '
+                     'the class-level wiring (global radius row of the equilibrium table, complex storage, grid reuse) is covered by the '
+                     'bounded stand-in only'],
     ),
     'C07': dict(
         level='proof',
@@ -187,5 +194,28 @@ PROPS = {
                             'P 1..6, byte-identical final checkpoints. h5py has no MPI driver here: File(driver=mpio) is served by a '
                             'documented stand-in (shared on-disk file, locked writes) for the duration of a case')],
         assumptions=['simulated MPI (vf/shim)', 'HDF5 hyperslab semantics of h5py; the mpio stand-in of vf/rt/bounded_diag.py'],
+    ),
+    'C14': dict(
+        level='other',
+        contracts=[],
+        functions=[],
+        bounded=[dict(module='vf.rt.bounded_poisson', prop='C14',
+                      bound='real DiffEqSolver on process grids 1x1..3x2, degrees 1-5, 8-14 radial points, uniform-cubic and general '
+                            'spline objects (equidistant breaks), constant A and random B,C,D,E, quadrature exactness p-1..2p+3, all '
+                            'Dirichlet/Neumann mixes incl. both orders in one call, against an independent dense Galerkin assembly '
+                            '(tolerance max(1e-10, 400*cond*eps)); manufactured polynomial solutions; linearity; mode independence; '
+                            'refusal of ill-posed pure-Neumann problems; repeated calls')],
+        assumptions=['simulated MPI (vf/shim)', 'non-equidistant radial break points are outside the quantifier of C14 (the solver takes '
+                     'the cell width from the first cell): observation recorded in DESIGN.md'],
+    ),
+    'C15': dict(
+        level='other',
+        contracts=[],
+        functions=[],
+        bounded=[dict(module='vf.rt.bounded_poisson', prop='C15',
+                      bound='real QuasiNeutralitySolver pipeline (getModes, layout changes, solveEquation, findPotential) twice on the '
+                            'same objects, ntheta 4-9 (even and odd), chi 0/1, adiabatic and kinetic electrons, process grids 1x1..3x2, '
+                            'against an explicit DFT matrix and a dense mode-by-mode solve; equilibrium gives zero density and potential')],
+        assumptions=['simulated MPI (vf/shim)'],
     ),
 }
